@@ -1,5 +1,6 @@
 """C18 - the signed digest covers everything but the declared dynamic parts."""
 import copy
+import json
 import hashlib
 
 ID = "C18"
@@ -385,6 +386,36 @@ def run_case(spec, ctx):
         return h, captured["serialized"]
     da, sa = digest(a)
     db, sb = digest(b)
+    if via_yaml and da is not None:
+        # an insertion made in the playbook text: a second entry for a key of a signed mapping.  Either the text is
+        # refused or what it loads to has another digest - it must never verify like the untouched play.
+        import yaml as pyyaml
+        signed_keys = [k for k in a if k not in ("hosts", "vars") and isinstance(k, str)]
+        var_keys = [k for k in (a.get("vars") or {}) if isinstance(k, str) and not k.startswith("insights_signature")] if isinstance(a.get("vars"), dict) else []
+        excl = str((a.get("vars") or {}).get("insights_signature_exclude", "")) if isinstance(a.get("vars"), dict) else ""
+        var_keys = [k for k in var_keys if "/vars/" + k not in excl and "/vars" not in [x.strip() for x in excl.split(",")]]
+        texts = []
+        if signed_keys:
+            k = rng.choice(signed_keys)
+            # JSON flow notation is YAML; the key is spelled double-quoted whatever its original style was
+            extra = json.dumps(str(k)) + ": " + json.dumps(rng.choice(["injected", ["injected", {"x": 1}], {"shell": "id"}]))
+            texts.append(("play", ta + ("" if ta.endswith("\n") else "\n") + "  " + extra + "\n"))
+        for label2, text2 in texts:
+            ctx.count("duplicate_key_texts_tried")
+            try:
+                dup = pv.load_playbook_yaml(text2)
+            except pv.PlaybookVerificationError:
+                ctx.count("duplicate_key_texts_refused")
+                continue
+            except Exception as ex:
+                ctx.violation("playbook-loader-raised-another-exception-type", {"exc": repr(ex)[:200], "text": text2[-300:]})
+                continue
+            if not (isinstance(dup, list) and len(dup) == 1 and isinstance(dup[0], dict)):
+                ctx.count("duplicate_key_texts_loaded_to_something_else")
+                continue
+            dd, sd = digest(dup[0])
+            if dd is not None and dd == da:
+                ctx.violation("digest-unchanged-by-key-repeated-in-playbook-text", {"text_tail": text2[-300:], "loaded": repr(dup[0])[:300]})
     ma, ea = model_exclude(a)
     mb, eb = model_exclude(b)
     ctx.count("digest_pairs_compared")
